@@ -200,15 +200,15 @@ func run(r *report.Run, shard, nshards int, replayFile string) {
 		}
 	}
 	e := setup(r)
-	e.deadline = r.Deadline(170*time.Second, 27*time.Minute)
+	e.deadline = r.Deadline(150*time.Second, 27*time.Minute)
 	r.Rule = "(a) every table of 3 validators x {in snapshot, account on target chain in the snapshot entry, relayer fee none/0.5/1.0, metrics record, MEV trait} (48^3 tables) x job MEV requirement x consecutive block times, written into a fork of the prepared state with keeper APIs, request = signed MsgExecuteJob; " +
-		"(b) every queue of <=3 messages over {SubmitLogicCall of S1/S2, UpdateValset} x assignee {v0,v1} x estimate state x report {none, public access data, error data}, built with PutMessageInQueue + estimate txs + CheckAndProcessEstimatedMessages + report txs, queried for every validator; " +
+		"(b) every queue of <=3 messages over {SubmitLogicCall of S1/S2, UpdateValset} x assignee {v0,v1} x estimate state x report {none, public access data, error data}, built with PutMessageInQueue + estimate txs + CheckAndProcessEstimatedMessages + report txs, queried for v0, v1 (and v2, never an assignee, in the thorough tier); " +
 		"(c) relayer multiplier x elected gas x community rate x security rate through 3 estimate txs + ModuleManager.EndBlock; one evaluation = one (table, requirement, time) request / one (queue, caller) query / one election"
 	r.Assumptions = []string{
 		"(b) 'an older message from the same sender is still pending' is read as 'has no public-access (delivery) or error report yet'; the stronger reading (still in the queue, i.e. not yet attested) would flag the present, intended behaviour",
 		"(b) 'pending validator-set update' is read as the code does: any UpdateValset message still in the chain's queue (reported or not); a message is blocked iff its id is greater than the id of the oldest such update",
 		"(b) besides the property's 'only' direction the check also demands that a message satisfying all five conditions IS offered (signature gating:withheld-eligible)",
-		"(a) the snapshot table is written with ValsetKeeper.SaveModifiedSnapshot (same id, so no valset-update message is triggered by PreJobExecution); metrics records are created by MetrixKeeper.OnSnapshotBuilt (feature-set score follows the MEV traits), absent records are really absent; the three forms of 'no relayer fee for the chain' (no record, empty record, record for another chain only) are spread over v0, v1, v2",
+		"(a) the snapshot table is written with ValsetKeeper.SaveModifiedSnapshot (same id, so no valset-update message is triggered by PreJobExecution); metrics records are created by MetrixKeeper.OnSnapshotBuilt (feature-set score follows the MEV traits), absent records are really absent; every snapshot entry lists the other chain first, with the opposite MEV trait (a trait or address read from the wrong chain's entry shows); the three forms of 'no relayer fee for the chain' (no record, empty record, record for another chain only) are spread over v0, v1, v2",
 		"(a) in the 'drifted' registration mode every validator has, after the snapshot, re-registered a different address on the target chain with the opposite MEV trait (validators without an account in the snapshot have registered one since); eligibility and the signed relayer address must still follow the snapshot",
 		"3 validators: the pick index blockTime % min(n,5) only ever uses n<=3; consecutive block times cover every index for every n<=3",
 		"tx atomicity re-implemented as in baseapp.runTx (ante cache, msg cache)",
